@@ -662,15 +662,24 @@ def corr_decode(ck: Ck) -> None:
             raw = got['disk']
             if len(raw) > 6000:
                 continue
-            variants = [raw]
+            variants = [('v1', raw)]
             if raw and j % 2 == 0:
-                variants.append(raw[:ck.rng.randrange(0, len(raw))])
+                variants.append(('damaged', raw[:ck.rng.randrange(0, len(raw))]))
             if len(raw) > 13 and j % 3 == 0:
                 b = bytearray(raw)
                 p = ck.rng.randrange(12, len(b))
                 b[p] = ck.rng.choice([0, 32, 255, b[p] ^ 1])
-                variants.append(bytes(b))
-            for v in variants:
+                variants.append(('damaged', bytes(b)))
+            if len(raw) >= 12:
+                # version 2: same tree and trailing bytes, four more header fields (arbitrary values); the code cannot write these
+                hdr4 = bytes(ck.rng.choice([0, 1, 16, 255, ck.rng.randrange(256)]) for _ in range(16))
+                v2 = raw[:4] + (2).to_bytes(4, 'little') + raw[8:12] + hdr4 + raw[12:]
+                variants.append(('v2', v2))
+                if j % 4 == 0:
+                    variants.append(('v2-damaged', v2[:ck.rng.randrange(12, len(v2))]))
+                if j % 5 == 0:
+                    variants.append(('bad-version', raw[:4] + ck.rng.choice([0, 3, 258]).to_bytes(4, 'little') + raw[8:]))
+            for kind, v in variants:
                 p = os.path.join(d, 'x_dir.vpk')
                 with open(p, 'wb') as f:
                     f.write(v)
@@ -678,21 +687,33 @@ def corr_decode(ck: Ck) -> None:
                     vp = VPK(p, mode='r')
                     ents = {(i.dir, i._filename, i.ext): (i.crc, dg(i.start_data), i.arch_index, i.offset, i.arch_len) for i in vp}
                     el = coq_list(f'({c_key(k)}, ({c}, {c_dg(pd)}, {c_idx(x)}, {o}, {l}))' for k, (c, pd, x, o, l) in sorted(ents.items()))
-                    exp = f'(Some ({el if el != "[]" else "@nil ent_t"}, {c_dg(dg(vp.footer_data))}))'
+                    exp = f'(Some ({vp.version}, {el if el != "[]" else "@nil ent_t"}, {c_dg(dg(vp.footer_data))}))'
                     if ents:
                         ck.seen(('dec', v))
+                    if kind == 'v2':
+                        # a version-2 archive is read-only in effect: write_dirfile must refuse before touching the file
+                        va = VPK(p, mode='a')
+                        try:
+                            va.write_dirfile()
+                            refused = False
+                        except NotImplementedError:
+                            refused = True
+                        with open(p, 'rb') as f:
+                            if not refused or f.read() != v:
+                                ck.violation('v2-write_dirfile-damages-file', 'write_dirfile on a version-2 archive did not refuse, or changed the file',
+                                             {'file_hex': v.hex()[:4000]})
                 except Exception:      # noqa
                     exp = 'None'
                     nbad_files += 1
                 lits.append(f'({coq_bytes(v)}, {exp})')
                 ck.count('corr_decoded_files')
-                ck.hist('decode_input', 'written by write_dirfile' if v is raw else 'damaged')
+                ck.hist('decode_input', {'v1': 'written by write_dirfile', 'v2': 'version 2 (patched header)'}.get(kind, kind))
     finally:
         shutil.rmtree(d, ignore_errors=True)
     bad = []
     for lo in range(0, len(lits), 200):
         part = lits[lo:lo + 200]
-        vals = ck.coq_eval(IMPORTS, [f'bad_idx (fun c : bytes * option (list ent_t * (N * N)) => check_decode g_dcfg (fst c) (snd c)) 0 {coq_list(part)}'],
+        vals = ck.coq_eval(IMPORTS, [f'bad_idx (fun c : bytes * option (N * list ent_t * (N * N)) => check_decode_v g_dcfg (fst c) (snd c)) 0 {coq_list(part)}'],
                            name='vpkdec', preamble=PRE)
         if vals is None:
             ck.obligation('correspondence:decode', False, 'model could not be evaluated')
@@ -700,8 +721,8 @@ def corr_decode(ck: Ck) -> None:
             return
         bad += [lo + i for i in parse_coq_N_list(vals[0])]
     ck.obligation('correspondence:decode', not bad,
-                  f'{len(lits)} directory files written by the implementation ({nbad_files} damaged ones it rejects), decoded by the model '
-                  f'decoder Fmt/VpkDir.v dec_file vs load_dirfile: {len(bad)} disagreements')
+                  f'{len(lits)} directory files written by the implementation, damaged copies and version-2 copies ({nbad_files} it rejects), decoded '
+                  f'by the model decoder Fmt/VpkDirV2.v dec_file_v (version, entries, footer) vs load_dirfile: {len(bad)} disagreements')
     if bad:
         ck.tie_broken.append('correspondence VPK directory decode (Fmt/VpkDir.v dec_file vs VPK.load_dirfile)')
         ck.extra['decode_disagreement'] = {'literal': lits[bad[0]][:3000]}
